@@ -631,6 +631,20 @@ pub(crate) fn validate_connect_packet_outbound(packet: &ConnectPacket) -> Gneiss
         validate_user_properties(&will.user_properties, PacketType::Connect, "(will)validate_connect_packet_outbound")?;
         validate_string_length(will.topic.as_str(), PacketType::Connect, "(will)validate_connect_packet_outbound", "topic")?;
         validate_optional_binary_length(&will.payload, PacketType::Connect, "(will)validate_connect_packet_outbound", "payload")?;
+
+        if !is_valid_topic(&will.topic) {
+            let message = "(will)validate_connect_packet_outbound - invalid topic";
+            error!("{}", message);
+            return Err(GneissError::new_packet_validation(PacketType::Connect, message));
+        }
+
+        if let Some(response_topic) = &will.response_topic {
+            if !is_valid_topic(response_topic) {
+                let message = "(will)validate_connect_packet_outbound - invalid response topic";
+                error!("{}", message);
+                return Err(GneissError::new_packet_validation(PacketType::Connect, message));
+            }
+        }
     }
 
     Ok(())
